@@ -1,4 +1,4 @@
-PROP = {"engines": [("array", "default", 2500), ("deque", "default", 2500), ("pqueue", "default", 1000), ("hashtable", "default", 2000), ("tst", "default", 1000),
+PROP = {"engines": [("list", "default", 2000), ("slist", "default", 1500), ("array", "default", 2500), ("deque", "default", 2500), ("pqueue", "default", 1000), ("hashtable", "default", 2000), ("tst", "default", 1000),
                     ("treetable", "default", 1000), ("rbuf", "default", 400), ("dpool", "default", 600)],
         "level_text": "Coq theorems per engine: every block an operation (or a derived-container builder) adds to the ledger carries the container's own allocator family, and since no step "
                       "faults every release went through that family too. The model's tags transcribe which identifier the C text calls, so this property is only as strong as its tie: "
